@@ -3,11 +3,13 @@
 //! Shape classes (DESIGN §2.5): zero; sub-byte; byte-aligned non-limb; `BYTES % 8 == 0 &&
 //! BITS % 64 != 0` (60, 63, 121, 127, 250, 255: whole-limb decode fast path with a non-trivial
 //! mask); limb-aligned; RLP 55/56-byte boundary (440/441/448); SCALE compact limit (535/536);
-//! DER length-form boundaries (1024, 2048).
+//! DER length-form boundaries (1024, 2048). BITS % 8 covers every residue 0..=7
+//! (2, 3, 12, 13, 30, 31, ...).
 
 pub const WIDTHS: &[usize] = &[
-    0, 1, 7, 8, 12, 16, 31, 32, 33, 60, 63, 64, 65, 72, 121, 127, 128, 129, 160, 192, 250, 255,
-    256, 257, 320, 384, 440, 441, 448, 512, 520, 535, 536, 768, 1024, 2048, 4096,
+    0, 1, 2, 3, 7, 8, 12, 13, 16, 30, 31, 32, 33, 60, 63, 64, 65, 72, 100, 121, 127, 128, 129, 160,
+    192, 200, 250, 255, 256, 257, 320, 384, 440, 441, 448, 512, 520, 535, 536, 768, 1024, 2048,
+    4096,
 ];
 
 /// Width class index used in coverage signatures.
@@ -35,10 +37,14 @@ macro_rules! for_width {
         match $bits {
             0 => $f::<0, 0>($($a),*),
             1 => $f::<1, 1>($($a),*),
+            2 => $f::<2, 1>($($a),*),
+            3 => $f::<3, 1>($($a),*),
             7 => $f::<7, 1>($($a),*),
             8 => $f::<8, 1>($($a),*),
             12 => $f::<12, 1>($($a),*),
+            13 => $f::<13, 1>($($a),*),
             16 => $f::<16, 1>($($a),*),
+            30 => $f::<30, 1>($($a),*),
             31 => $f::<31, 1>($($a),*),
             32 => $f::<32, 1>($($a),*),
             33 => $f::<33, 1>($($a),*),
@@ -47,12 +53,14 @@ macro_rules! for_width {
             64 => $f::<64, 1>($($a),*),
             65 => $f::<65, 2>($($a),*),
             72 => $f::<72, 2>($($a),*),
+            100 => $f::<100, 2>($($a),*),
             121 => $f::<121, 2>($($a),*),
             127 => $f::<127, 2>($($a),*),
             128 => $f::<128, 2>($($a),*),
             129 => $f::<129, 3>($($a),*),
             160 => $f::<160, 3>($($a),*),
             192 => $f::<192, 3>($($a),*),
+            200 => $f::<200, 4>($($a),*),
             250 => $f::<250, 4>($($a),*),
             255 => $f::<255, 4>($($a),*),
             256 => $f::<256, 4>($($a),*),
